@@ -657,33 +657,37 @@ func (d *Decimal) Modf(integ, frac *Decimal) {
 		return
 	}
 
+	// integ or frac may be the same object as d: read everything needed from
+	// d before an output is written, and copy d before zeroing the other
+	// output.
 	neg := d.Negative
+	dExp := d.Exponent
 
 	// No fractional part.
-	if d.Exponent > 0 {
+	if dExp > 0 {
+		if integ != nil {
+			integ.Set(d)
+		}
 		if frac != nil {
 			frac.Form = Finite
 			frac.Negative = neg
 			frac.Exponent = 0
 			frac.Coeff.SetInt64(0)
 		}
-		if integ != nil {
-			integ.Set(d)
-		}
 		return
 	}
 	nd := d.NumDigits()
-	exp := -int64(d.Exponent)
+	exp := -int64(dExp)
 	// d < 0 because exponent is larger than number of digits.
 	if exp > nd {
+		if frac != nil {
+			frac.Set(d)
+		}
 		if integ != nil {
 			integ.Form = Finite
 			integ.Negative = neg
 			integ.Exponent = 0
 			integ.Coeff.SetInt64(0)
-		}
-		if frac != nil {
-			frac.Set(d)
 		}
 		return
 	}
@@ -706,7 +710,7 @@ func (d *Decimal) Modf(integ, frac *Decimal) {
 	if frac != nil {
 		icoeff.QuoRem(&d.Coeff, e, &frac.Coeff)
 		frac.Form = Finite
-		frac.Exponent = d.Exponent
+		frac.Exponent = dExp
 		frac.Negative = neg
 	} else {
 		// This is the frac == nil, which means integ must not be nil since they both
